@@ -25,6 +25,9 @@
 (* Mode = "chains": every chain of <= 2 directives x every value (strings  *)
 (*                  up to MaxLen over the adversarial alphabet and the     *)
 (*                  non-strings), printed directly, mode on and off        *)
+(* Mode = "msgs"  : messages of three prints of one expression (chains     *)
+(*                  from MsgChains) rendered without and through a         *)
+(*                  translation: every print's bytes satisfy its own class *)
 (* Mode = "export": prints the M2 tables (MODE rows, CHAIN rows with the   *)
 (*                  expected text for the exported values)                 *)
 (***************************************************************************)
@@ -58,10 +61,22 @@ Dirs == {D0(n) : n \in {"escapeHtml", "escapeUri", "escapeJsString", "json", "ch
         \cup {Dir("insertWordBreaks", <<I(n)>>) : n \in {1, 3, 30}}
         \cup {Dir("truncate", <<I(n)>>) : n \in {2, 5, 30}}
         \cup {Dir("truncate", <<I(4), B(FALSE)>>)}
+\* the embedder's directives (SoyDirectives.CustomNames), alone and paired with a few built-ins
+CustomArg == S("<u>&\"")
+CustomDirs == {D0("vfQuote"), D0("vfIdent"), D0("vfList"), D0("vfRawIdent"),
+               Dir("vfAppend", <<CustomArg>>), Dir("vfRawAppend", <<CustomArg>>)}
+PairMates == {Dir("truncate", <<I(5)>>), D0("escapeHtml"), D0("noAutoescape"), Dir("insertWordBreaks", <<I(3)>>)}
 Chains == {<<>>} \cup {<<d>> : d \in Dirs} \cup {<<d1, d2>> : d1 \in Dirs, d2 \in Dirs}
+          \cup {<<c>> : c \in CustomDirs} \cup {<<c1, c2>> : c1 \in CustomDirs, c2 \in CustomDirs}
+          \cup {<<c, d>> : c \in CustomDirs, d \in PairMates} \cup {<<d, c>> : c \in CustomDirs, d \in PairMates}
+
+\* messages rendered through a translation (Mode = "msgs"): pairs and triples of prints
+MsgChains == {<<>>, <<D0("noAutoescape")>>, <<D0("id")>>, <<D0("escapeHtml")>>, <<Dir("insertWordBreaks", <<I(3)>>)>>,
+              <<Dir("truncate", <<I(5)>>)>>, <<D0("escapeUri")>>, <<D0("vfQuote")>>, <<Dir("vfRawAppend", <<CustomArg>>)>>}
 
 SiteChains == {<<>>, <<D0("noAutoescape")>>, <<D0("escapeHtml")>>, <<Dir("insertWordBreaks", <<I(3)>>)>>,
-               <<Dir("truncate", <<I(5)>>)>>, <<D0("escapeUri")>>, <<D0("changeNewlineToBr"), D0("id")>>}
+               <<Dir("truncate", <<I(5)>>)>>, <<D0("escapeUri")>>, <<D0("changeNewlineToBr"), D0("id")>>,
+               <<D0("vfQuote")>>}
 SiteVals == <<S("<a>"), S("&'\""), S("a b"), S(""), I(-7), L(<<S("<a>"), I(1), Null>>), M(("k<" :> S("'")))>>
 
 (***************************************************************************)
@@ -72,6 +87,8 @@ Init ==
      /\ kase \in [m : {"sites"}, site : Sites, ns : {"-"}, t : {"-"}]
   \/ /\ Mode = "chains"
      /\ kase \in [m : {"chains"}, chain : Chains, on : BOOLEAN, ix : {<<>>}, nsi : 0..Len(NonStrings)]
+  \/ /\ Mode = "msgs"
+     /\ kase \in [m : {"msgs"}, c1 : MsgChains, c2 : MsgChains, on : BOOLEAN]
   \/ /\ Mode = "export"
      /\ kase = [m |-> "export"]
 
@@ -91,6 +108,9 @@ Safe ==
          \A cns \in AutoescapeAttrs, ct \in AutoescapeAttrs, chain \in SiteChains, vi \in DOMAIN SiteVals :
            (kase.site \in CalleeSites \/ (cns = "unspecified" /\ ct = "unspecified")) =>
              SafeCase(kase.site, [ns |-> kase.ns, t |-> kase.t, cns |-> cns, ct |-> ct], chain, SiteVals[vi])
+    [] kase.m = "msgs" ->
+         \A c3 \in MsgChains, vi \in DOMAIN SiteVals :
+           MsgSafe(kase.on, <<kase.c1, kase.c2, c3>>, SiteVals[vi])
     [] kase.m = "chains" ->
          SafeCase("direct", [Unspec4 EXCEPT !.t = IF kase.on THEN "unspecified" ELSE "false"],
                   kase.chain, ValOf(kase))
